@@ -130,7 +130,22 @@ def run(ctx):
                  'payloads are multiples of 4 bytes only: a tail loop on wider words drops the last bytes of parity and of rebuilt data')
     from .. import cover
     cover.cover_rule(P, r, 'xor_bufs_and_store', [0], 1, 2)
-    r.require_min(1)
+    # the copy that seeds a rebuilt element with its parity: one copy of exactly `size` bytes, or stores that tile [0, size)
+    from ..vflow import Canon, strip_ptr_casts, strip_int_casts
+    fm = P.fn('fast_memcpy')
+    Cfm = Canon(P, fm)
+    mcs = [i for i in fm.insts() if i.op == 'call' and (i.callee or '').startswith('@llvm.memcpy')]
+    sts = [i for i in fm.insts() if i.op == 'store']
+    whole = [i for i in mcs if strip_ptr_casts(fm, i.ops[0]) == fm.params[0][1] and strip_ptr_casts(fm, i.ops[1]) == fm.params[1][1]
+             and Cfm.val(strip_int_casts(fm, i.ops[2])) == Cfm.val(fm.params[2][1])]
+    if whole and not sts and len(mcs) == 1:
+        r.ok('fast_memcpy: one copy of exactly size bytes from src to dst', func=fm.name, loc=whole[0].loc)
+    elif sts and not mcs:
+        cover.cover_rule(P, r, 'fast_memcpy', [1], 0, 2)
+    else:
+        r.fail('fast_memcpy copies size bytes', func=fm.name, sig='fast_memcpy: copy not recognised as whole', loc=fm.mod.src,
+               msg='fast_memcpy is neither one memcpy(dst, src, size) nor a set of loops that tile [0, size): bytes of the rebuilt element may stay unset')
+    r.require_min(2)
     if ctx.flavour == 'configured':
         # the property names both build flavours: the kernel of the portable build (no -m*/-DINTEL_* flags) is decided on every run too
         rp = ctx.rule('R05g.portable', 'XOR kernel of the portable build flavour (no SSE2): wide loop + byte tail cover every byte of the block',
